@@ -1,4 +1,5 @@
 import SFV.Lemmas.TokenStore
+import SFV.Lemmas.PersistDeps
 import SFV.Gen.Persist
 /-! # C08 — saving then loading a workflow reproduces it exactly
 
@@ -47,6 +48,39 @@ theorem load_save_entity_now (c : PClass) (hm : c ∈ SFV.Gen.persistClasses) (a
     loadRec SFV.Gen.persistClasses c (saveRec SFV.Gen.persistClasses c attrs) =
       some ((effRead SFV.Gen.persistClasses SFV.Gen.persistClasses.length c).map (fun k => (k, attrs k))) :=
   load_save_entity _ persist_tables_closed c hm attrs
+
+/-- **Multi-save histories record every connection** (`Step.save` as it is: `stepSaveDepsAlways` is read from the source):
+save a step with the ports `p1`, attach more ports `p2` to the already persisted step, save again — every connection
+of `p1 ++ p2` (a port is attached to a step at most once) has its `dependency` row afterwards. -/
+theorem resave_records_new_ports (p1 p2 : List Dep) (hnd : ((p1 ++ p2).map (·.1)).Nodup) :
+    ∀ d ∈ p1 ++ p2,
+      d ∈ (saveStep SFV.Gen.stepSaveDepsAlways (saveStep SFV.Gen.stepSaveDepsAlways ⟨false, []⟩ p1) (p1 ++ p2)).deps := by
+  intro d hd
+  have ha : SFV.Gen.stepSaveDepsAlways = true := by decide
+  simp only [saveStep, ha, Bool.true_or, if_true]
+  have hnd1 : (p1.map (·.1)).Nodup := by
+    rw [List.map_append] at hnd; exact (List.nodup_append.mp hnd).1
+  by_cases h1 : d ∈ p1
+  · exact (foldl_addDep_mem (p1 ++ p2) _ d).1 ((foldl_addDep_mem p1 [] d).2 h1 hnd1 (by simp))
+  · -- a late connection: its port has no row yet
+    apply (foldl_addDep_mem (p1 ++ p2) _ d).2 hd hnd
+    intro e he heq
+    rcases foldl_addDep_sub p1 [] e he with h | h
+    · cases h
+    · have hd2 : d ∈ p2 := by
+        rcases List.mem_append.mp hd with h' | h'
+        · exact absurd h' h1
+        · exact h'
+      rw [List.map_append] at hnd
+      exact (List.nodup_append.mp hnd).2.2 e.1 (List.mem_map.mpr ⟨e, h, rfl⟩) d.1 (List.mem_map.mpr ⟨d, hd2, rfl⟩) heq
+
+/-- … and with the rows written only when the step is first inserted (the seeded change) a late connection is lost -/
+example : (5, "late", true) ∉ (saveStep false (saveStep false ⟨false, []⟩ [(1, "in", true)]) [(1, "in", true), (5, "late", true)]).deps := by
+  decide
+
+/-- a second concurrent `Token.save` of the same instance waits for the first (read from the source; the correspondence part
+saves DAG-shaped values concurrently to exercise it) -/
+theorem token_save_waits : SFV.Gen.tokenSaveWaits = true := by decide
 
 /-- **Token values round-trip** (`load_save_val`): for every well-formed token value — plain tokens, `ListToken`s and
 `ObjectToken`s nested to any depth, any tags, any `recoverable` flags — and every database state, `Token.save` followed by
